@@ -5,6 +5,7 @@
 #include <netinet/in.h>
 #include <sys/socket.h>
 #include <sys/types.h>
+#include <time.h>
 #include <memory>
 #include <string>
 #include <vector>
@@ -71,6 +72,19 @@ extern "C" ssize_t __wrap_recvfrom(int, void *buf, size_t len, int, struct socka
     *slen = sizeof(*a);
   }
   return static_cast<ssize_t>(n);
+}
+
+// virtual time: the real monotonic clock plus an offset the E1.31 multi-sender histories advance
+static long long g_clock_offset_ns = 0;
+extern "C" int __real_clock_gettime(clockid_t id, struct timespec *ts);
+extern "C" int __wrap_clock_gettime(clockid_t id, struct timespec *ts) {
+  int r = __real_clock_gettime(id, ts);
+  if (r == 0 && g_clock_offset_ns) {
+    long long ns = ts->tv_nsec + g_clock_offset_ns % 1000000000LL;
+    ts->tv_sec += g_clock_offset_ns / 1000000000LL + ns / 1000000000LL;
+    ts->tv_nsec = ns % 1000000000LL;
+  }
+  return r;
 }
 
 // ---------------------------------------------------------------- helpers
@@ -979,9 +993,100 @@ static string do_anm(const vector<string> &a) {
   return "t=" + trace + ";h=" + hb + ";sole=" + vh::str(sole_ok) + ";spec=" + vh::str(sole_ok == sole ? 1 : 0);
 }
 
+// ---------------------------------------------------------------- E1.31: several sender CIDs over time
+static string do_e1c(const vector<string> &a) {
+  // e1c <rev2> <frame/frame/...> <tokens>  a<k>|b<k>|c<k> send pool[k]; pa<prio> set priority; ta terminate; w<ms>
+  using ola::acn::E131Node;
+  bool rev2 = vh::num(a[1]) != 0;
+  vector<string> pool_s = vh::split(a[2], '/');
+  vector<vector<uint8_t> > pool;
+  for (size_t i = 0; i < pool_s.size(); i++) pool.push_back(vh::unhex(pool_s[i]));
+  vector<string> script = vh::split(a[3], ',');
+  ola::io::SelectServer ss;
+  E131Node::Options opts;
+  opts.use_rev2 = rev2;
+  opts.source_name = "cid";
+  std::auto_ptr<E131Node> tx[3];
+  for (int k = 0; k < 3; k++) {
+    uint8_t cid_bytes[16];
+    for (int z = 0; z < 16; z++) cid_bytes[z] = 16 * (k + 1) + z;
+    tx[k].reset(new E131Node(&ss, "", opts, ola::acn::CID::FromData(cid_bytes)));
+    tx[k]->m_interface = iface(); tx[k]->m_socket.Init();
+  }
+  uint8_t rc[16];
+  for (int z = 0; z < 16; z++) rc[z] = 0x80 + z;
+  E131Node rxn(&ss, "", opts, ola::acn::CID::FromData(rc));
+  rxn.m_interface = iface(); rxn.m_socket.Init();
+  const unsigned universe = 7;
+  DmxBuffer rx;
+  uint8_t prio_out = 0;
+  rxn.m_dmp_inflator.SetHandler(universe, &rx, &prio_out, ola::NewCallback(&on_data));
+  long now = 0;
+  long last[3] = {-1, -1, -1};
+  bool term[3] = {false, false, false};
+  unsigned prio[3] = {100, 100, 100};
+  vector<uint8_t> lastf[3];
+  string trace;
+  uint32_t h = 2166136261u;
+  unsigned sole = 0, sole_ok = 0;
+  for (size_t i = 0; i < script.size(); i++) {
+    const string &tk = script[i];
+    if (tk.size() < 2) continue;
+    if (tk[0] == 'w') { unsigned ms = vh::num(tk.substr(1)); g_clock_offset_ns += 1000000LL * ms; now += ms; continue; }
+    if (tk[0] == 'p') { int w = tk[1] - 'a'; if (w >= 0 && w < 3) prio[w] = vh::num(tk.substr(2)); continue; }
+    if (tk[0] == 't') {
+      int w = tk[1] - 'a';
+      if (w < 0 || w > 2 || rev2) continue;
+      g_sent.clear();
+      tx[w]->TerminateStream(universe, prio[w]);
+      vector<vector<uint8_t> > pk = g_sent;
+      for (size_t z = 0; z < pk.size(); z++) {
+        g_rx = pk[z]; g_rx_valid = true; set_source();
+        rxn.m_incoming_udp_transport.Receive();
+      }
+      term[w] = true;
+      string got = "T:" + buf_s(rx);
+      h = fnv(h, vector<uint8_t>(got.begin(), got.end()));
+      trace += "T";
+      continue;
+    }
+    int who = tk[0] - 'a';
+    unsigned k = vh::num(tk.substr(1));
+    if (who < 0 || who > 2 || k >= pool.size()) continue;
+    const vector<uint8_t> &f = pool[k];
+    DmxBuffer txb;
+    tx_fill(&txb, f, NULL);
+    g_sent.clear();
+    if (!tx[who]->SendDMX(universe, txb, prio[who], false) || g_sent.size() != 1) { trace += "-"; continue; }
+    int before = g_calls;
+    g_rx = g_sent[0]; g_rx_valid = true; set_source();
+    rxn.m_incoming_udp_transport.Receive();
+    // is every other sender out of the picture (silent beyond the expiry, terminated, or idling at
+    // blackout with the same priority and no more slots)?
+    bool alone = true;
+    for (int z = 0; z < 3; z++) {
+      if (z == who || last[z] < 0 || term[z]) continue;
+      if (last[z] + 2500 < now) continue;
+      bool zero = lastf[z].size() <= f.size() && prio[z] == prio[who];
+      for (size_t q = 0; q < lastf[z].size(); q++) if (lastf[z][q]) zero = false;
+      if (!zero) alone = false;
+    }
+    last[who] = now; term[who] = false; lastf[who] = f;
+    bool exact = g_calls == before + 1 && buf_s(rx) == vh::hex(f);
+    if (alone) { sole++; if (exact) sole_ok++; }
+    string got = (g_calls == before + 1 ? "1:" : "0:") + buf_s(rx);
+    h = fnv(h, vector<uint8_t>(got.begin(), got.end()));
+    trace += exact ? (alone ? "1" : "e") : (alone ? "0" : "m");
+  }
+  char hb[16];
+  snprintf(hb, sizeof(hb), "%08x", h);
+  return "t=" + trace + ";h=" + hb + ";sole=" + vh::str(sole_ok) + ";spec=" + vh::str(sole_ok == sole ? 1 : 0);
+}
+
 static string handle(const string &p) {
   vector<string> a = vh::split(p);
   const string &op = a[0];
+  g_clock_offset_ns = 0;
   if (op == "enc" && a.size() == 3) return do_enc(a);
   if (op == "encd" && a.size() == 4) return do_enc(a);
   if (op == "snd" && a.size() == 8) return do_sn(a);
@@ -994,6 +1099,7 @@ static string handle(const string &p) {
   if (op == "sac" && a.size() == 8) return do_sac(a);
   if (op == "hist" && a.size() == 4) return do_hist(a);
   if (op == "anm" && a.size() == 4) return do_anm(a);
+  if (op == "e1c" && a.size() == 4) return do_e1c(a);
   if (op == "dec" && a.size() == 4) return do_dec(a);
   if (op == "sn" && a.size() == 7) return do_sn(a);
   if (op == "sa" && a.size() == 8) return do_sa(a);
